@@ -156,7 +156,10 @@ if w.get("lead"):
     auth = ResidueAuth("0", 1, None, "GLY")
     gly = Residue3D(None, auth, 1, "X", (Atom(None, None, auth, 1, "CA", c1[0] + 1, c1[1] + 1, c1[2] + 1, 1.0),)); gly.__dict__["base_normal_vector"] = None
     rs = [gly] + rs
-out = find_stackings(Structure3D(rs))
+try:
+    out = find_stackings(Structure3D(rs))
+except Exception as e:
+    print("find_stackings raised", type(e).__name__, e); sys.exit(1)
 n1, n2 = numpy.array(w["n1"]), numpy.array(w["n2"]); n1 /= numpy.linalg.norm(n1); n2 /= numpy.linalg.norm(n2)
 dot = float(n1 @ n2); cv = max(-n1[w["axis"]], -n2[w["axis"]])
 inside = w["d"] <= 6 and abs(dot) >= math.cos(math.radians(35)) and cv >= math.cos(math.radians(45))
@@ -165,7 +168,7 @@ bad = False
 if v["key"].endswith("definition"): bad = (len(out) > 0) != inside
 elif v["key"].endswith("topology"): bad = bool(out) and ((out[0].topology.value in ("upward", "downward")) != (dot > 0))
 elif v["key"].endswith("order"): bad = bool(out) and (out[0].nt1.auth.chain, out[0].nt1.auth.number, out[0].nt1.auth.icode) != tuple(v["expect_first"])
-else: bad = True
+else: bad = False      # an exception seen only by the symbolic run is not a violation unless the real code raises too (it did not: we got here)
 sys.exit(1 if bad else 0)
 '''
 
